@@ -501,11 +501,12 @@ def validate_oracle(ctx, tree, cases, tag):
     print("oracle validation %s: %d units, %d disagreements" % (tag, len(units), n))
 
 
-def gen(ctx, out, workers=4, timeout=900, **consts):
+def gen(ctx, out, workers=4, timeout=1500, simulate=None, depth=None, extra=(), **consts):
     cfg = ctx.cfg("link", "Linkage_mc.cfg", **consts)
     if os.path.exists(out):
         os.unlink(out)
-    return ctx.tlc("link", "Linkage", cfg, env=dict(OUT=out), workers=workers, timeout=timeout, heap="6g")
+    return ctx.tlc("link", "Linkage", cfg, env=dict(OUT=out), workers=workers, timeout=timeout, heap="6g",
+                   simulate=simulate, depth=depth, extra=list(extra), count=not simulate)
 
 
 def q(s):
@@ -517,26 +518,46 @@ def run(ctx):
     tree = ctx.build()
     ctx.phase("build")
     allcases = []
-    plan = [("obj", dict(Mode=q("obj"), MaxLen=3 if quick else 4, N=0)),
-            ("fn", dict(Mode=q("fn"), MaxLen=3 if quick else 4, N=0)),
-            ("graph", dict(Mode=q("graph"), N=2, SelfLoops=True)),
-            ("graph3", dict(Mode=q("graph"), N=3, SelfLoops=not quick))]
-    for tag, consts in plan:
+    plan = [("obj", dict(Mode=q("obj"), MaxLen=3 if quick else 4, N=0), None),
+            ("fn", dict(Mode=q("fn"), MaxLen=3 if quick else 4, N=0), None),
+            ("graph2", dict(Mode=q("graph"), N=2, SelfLoops=True), None),
+            ("graph3", dict(Mode=q("graph"), N=3, SelfLoops=not quick), None),
+            # 4 functions: random walks inside the closed domain (every walk ends in a complete unit) for the
+            # replay; the thorough tier also model-checks the whole N = 4 graph below
+            ("graph4", dict(Mode=q("graph"), N=4, SelfLoops=True), 60 if quick else 600)]
+    for tag, consts, sim in plan:
         out = os.path.join(ctx.scratch, "units-%s.ndjson" % tag)
-        g = gen(ctx, out, Emit=True, **consts)
+        if sim:
+            g = gen(ctx, out, Emit=True, simulate=sim, depth=20, extra=["-seed", str(ctx.seed + 1)], **consts)
+        else:
+            g = gen(ctx, out, Emit=True, **consts)
         if not g.ok:
             p = ctx.replay_dir("tlc-Linkage-" + tag)
             open(p + "/counterexample.txt", "w").write(g.trace_text())
             json.dump(dict(kind="tlc", consts=consts), open(p + "/case.json", "w"))
             ctx.report("tlc:Linkage:%s:%s" % (tag, g.violated), "chibicc's linkage algorithm (Level I) differs from C11/ELF rules (Level A)", p)
-        cases = vt.read_ndjson(out)
+        seen, cases = set(), []
+        for c in vt.read_ndjson(out):
+            k = unit_key(c)
+            if k not in seen:
+                seen.add(k)
+                cases.append(c)
         if len(cases) < 100:
             raise Infra("Linkage generator (%s) wrote only %d units" % (tag, len(cases)))
         allcases.append((tag, cases))
         ctx.phase("tlc " + tag)
+    if not quick:
+        cfg4 = ctx.cfg("link", "Linkage_mc.cfg", Mode=q("graph"), N=4, SelfLoops=False, InitAfterOwn=False)
+        g4 = ctx.tlc("link", "Linkage", cfg4, workers=8, timeout=2400, heap="8g")
+        if not g4.ok:
+            p = ctx.replay_dir("tlc-Linkage-graph4-full")
+            open(p + "/counterexample.txt", "w").write(g4.trace_text())
+            json.dump(dict(kind="tlc", consts=dict(Mode=q("graph"), N=4, SelfLoops=False, InitAfterOwn=False)), open(p + "/case.json", "w"))
+            ctx.report("tlc:Linkage:graph4:%s" % g4.violated, "Level I differs from Level A on a 4-function reference graph", p)
+        ctx.phase("tlc graph4 exhaustive")
     # sensitivity controls: the pinned algorithm must be rejected in every mode
     for tag, consts in (("obj", dict(Mode=q("obj"), N=0)), ("fn", dict(Mode=q("fn"), N=0)),
-                        ("graph", dict(Mode=q("graph"), N=2))):
+                        ("graph2", dict(Mode=q("graph"), N=2))):
         ctl = ctx.tlc("link", "Linkage", ctx.cfg("link", "Linkage_mc.cfg", Fixed=False, **consts), workers=2, count=False)
         if ctl.ok:
             raise Infra("sensitivity control failed: TLC accepts the pinned linkage algorithm in mode " + tag)
@@ -545,7 +566,9 @@ def run(ctx):
     for tag, cases in allcases:
         stride = 1
         if quick:
-            stride = dict(obj=3, fn=1, graph=1, graph3=8).get(tag, 1)
+            stride = dict(obj=3, fn=1, graph2=1, graph3=8, graph4=1).get(tag, 1)
+        elif tag == "graph3":
+            stride = 2
         if os.environ.get("VERIF_C15_ORACLE") == "units":
             validate_oracle(ctx, tree, cases, tag)
         sel = vt.subsample(cases, ctx.seed, stride)
